@@ -70,6 +70,13 @@ func checkC18(c *Ctx) {
 	// otherwise both verify)
 	c.guard(p, "C18.pss", "signature representative not below the modulus refused", vp, GuardSpec{Assumes: []Assume{calleeAssume(latInt(1), -1, "(*math/big.Int).Cmp")}})
 	c.guard(p, "C18.pss", "signature representative equal to the modulus refused", vp, GuardSpec{Assumes: []Assume{calleeAssume(latInt(0), -1, "(*math/big.Int).Cmp")}})
+	// the range check is made on the signature representative, i.e. before the public-key operation (the
+	// result of s^e mod N is below N whatever s was)
+	c.orderRule(p, "C18.pss", "the comparison with the modulus precedes the public-key operation", vp,
+		"call of (*big.Int).Cmp", p.isCallTo(-1, nil, "(*math/big.Int).Cmp"), "call of encrypt", p.isCallTo(-1, nil, cm+".encrypt"))
+	// the message is hashed from a cleared state (the partially blind verifier hands out its long-lived hash)
+	c.orderRule(p, "C18.pss", "the hash is reset before the message is absorbed", p.Func(cm, "", "EncodeMessageEMSAPSS"),
+		"call of hash.Hash.Reset", p.isCallTo(-1, nil, "invoke (hash.Hash).Reset"), "call of hash.Hash.Write", p.isCallTo(-1, nil, "invoke (hash.Hash).Write", "invoke (io.Writer).Write"))
 	c.guard(p, "C18.pss", "verifyPSS accepts only through EMSA-PSS verification", vp, GuardSpec{Assumes: []Assume{calleeAssume(latNonNil, -1, cm+".emsaPSSVerify")}})
 	c.guard(p, "C18.pss", "VerifyMessageSignature accepts only through verifyPSS", p.Func(cm, "", "VerifyMessageSignature"), GuardSpec{Assumes: []Assume{calleeAssume(latNonNil, -1, cm+".verifyPSS")}})
 	c.guard(p, "C18.pss", "public Verify delegates", p.Func(br, "Verifier", "Verify"), GuardSpec{Assumes: []Assume{calleeAssume(latNonNil, -1, cm+".VerifyMessageSignature")}})
